@@ -190,6 +190,12 @@ class scrypt(KDFAdapter):
 
 class blake2b(KDFAdapter, MACAdapter, HashAdapter):
     def __init__(self, *, length=64):
+        if (
+            not isinstance(length, int)
+            or not 1 <= length <= hashlib.blake2b.MAX_DIGEST_SIZE
+        ):
+            raise ValueError('Invalid digest size')
+
         self.digest_size = length
 
     def generate_derivation_params(self):
